@@ -1623,6 +1623,12 @@ def c10_cases(seed, tier):
             for slen in sorted(set([max(len(s), 1), len(s) + 2] + ([len(s) - 1] if len(s) > 1 else []))):
                 for f in ('strspn_s', 'strcspn_s', 'strpbrk_s', 'strstr_s', 'strcasestr_s'):
                     add(f, D, S, [(1, 0), dmax, (2, 0), slen, (0, 0), UNK, UNK], d=d, s=s, dmax=dmax, slen=slen)
+    # object size of src known to the library and smaller than slen: a constraint violation; the operands must stay as they are
+    for d, s in pairs[:60]:
+        if len(s) < 2 or not d: continue
+        D = d + [0]; S = s + [0]
+        for f in ('strspn_s', 'strcspn_s', 'strpbrk_s', 'strstr_s', 'strcasestr_s'):
+            add(f, D, S, [(1, 0), len(D), (2, 0), len(s), (0, 0), len(D), len(s) - 1], d=d, s=s, dmax=len(D), slen=len(s), cls='src-bos-small', noref=True)
     for d in strs:
         D = d + [0] + [0x61, 0x7a, 0]
         for dmax in dmaxes(len(d)):
@@ -1674,6 +1680,7 @@ def c10_cases(seed, tier):
 def c10_reference(c):
     """expected (return code or None = any, result) per the standard counterpart restricted to the first dmax elements; None = no expectation"""
     m = c.meta; f = c.func
+    if m.get('noref'): return None
     EOK, NOTFND, NODIFF = 0, 409, 408
     if f in ('memcmp_s', 'memcmp16_s', 'memcmp32_s', 'wmemcmp_s'):
         u = m['unit']; a = fam_copy.dec(bytes(m['a']), u)[:m['slen']]; b = fam_copy.dec(bytes(m['b']), u)[:m['slen']]
